@@ -8,7 +8,7 @@
 From GM Require Import Base.Prelude Base.Outcome Codec.Packets Codec.Settings Codec.Steps Codec.ImplEncode
   Codec.Framing Alias.Outbound Alias.Inbound Validate.Rules Engine.Model Engine.Instance
   EngineProofs.AssocLemmas EngineProofs.WFDefs EngineProofs.HandshakeRunTrace EngineProofs.IdsWitness
-  EngineProofs.OrderRunSeq.
+  EngineProofs.OrderRunSeq EngineProofs.OrderRunStrict.
 Open Scope N_scope.
 
 Definition i_service (cfg : config) : istate -> N -> N -> N -> sres enc decoder ores ires :=
@@ -77,4 +77,12 @@ Example ow_segment :
   map (fun o => length (o_bytes o)) (snd (i_run ow_cfg ow_s2 ow_seg)) = [0; 5; 0; 0; 5; 0; 20]%nat.
 Proof.
   split; [exact ow_seg_ok|]. vm_compute. repeat split; reflexivity.
+Qed.
+
+(* the first-connection history closes no connection: the premises of the strict (partial) theorem hold *)
+Example ow_first_connection :
+  Forall ok_event ow_hist1 /\ Forall no_close ow_hist1 /\ s_st ow_s1 = Connected /\ s_uq ow_s1 = [2; 3].
+Proof.
+  split; [exact ow_hist1_ok|]. split; [unfold ow_hist1, x_connect_events; cbn [app]; repeat constructor|].
+  vm_compute. split; reflexivity.
 Qed.
